@@ -10,6 +10,7 @@ import (
 	"os/exec"
 	"path/filepath"
 	"strings"
+	"sync"
 	"time"
 
 	"github.com/folbricht/desync"
@@ -283,9 +284,11 @@ func run(c *harness.Ctx, i int) {
 		anyAlias = anyAlias || sp.alias
 		anyMissing = anyMissing || sp.miss
 	}
-	c.Info("class=%s len=%d sizes=%s chunks=%d seeds=[%s] prior=%s action=%s n=%d clone=%v ymode=%d cli=%v",
-		class, len(blob), sz, len(idx.Chunks), strings.Join(kindsUsed, ","), prior, actionName, n, clone, ymode, useCLI)
-	c.LogInfo()
+	logInfo := func(hostile string) {
+		c.Info("class=%s len=%d sizes=%s chunks=%d seeds=[%s] prior=%s action=%s n=%d clone=%v ymode=%d cli=%v hostile=%q",
+			class, len(blob), sz, len(idx.Chunks), strings.Join(kindsUsed, ","), prior, actionName, n, clone, ymode, useCLI, hostile)
+		c.LogInfo()
+	}
 	if c.Replay {
 		fmt.Fprintln(os.Stderr, "case", i, c.Rng != nil)
 	}
@@ -295,13 +298,76 @@ func run(c *harness.Ctx, i int) {
 	ls, err := dsu.FillLocalStore(storeDir, blob, idx, false)
 	dsu.Must(err)
 	fs := &dsu.FaultStore{S: ls}
+	// hostile environment (a quarter of the library cases): transient store errors (the k-th request fails, or every
+	// request fails the first time it is made for a chunk) and seed files that change under the extraction after they
+	// were validated. Then success is not demanded any more - but a reported success still means output == blob.
+	hostile := ""
+	var midRun func()
+	if !useCLI && rng.Intn(4) == 0 {
+		switch rng.Intn(3) {
+		case 0:
+			k := int64(1 + rng.Intn(4))
+			fs.Before = func(op string, n int64, id desync.ChunkID) error {
+				if op == "get" && n == k {
+					return dsu.ErrInjected{Msg: fmt.Sprintf("get#%d", n)}
+				}
+				return nil
+			}
+			hostile = "store-fails-once"
+		case 1:
+			var mu sync.Mutex
+			seen := map[desync.ChunkID]bool{}
+			salt := byte(rng.Intn(256))
+			fs.Before = func(op string, n int64, id desync.ChunkID) error {
+				mu.Lock()
+				defer mu.Unlock()
+				if op == "get" && !seen[id] && (id[0]^salt)%2 == 0 {
+					seen[id] = true
+					return dsu.ErrInjected{Msg: fmt.Sprintf("first get of %x", id[:4])}
+				}
+				return nil
+			}
+			hostile = "store-first-request-fails"
+		case 2:
+			hostile = "seed-changes-under-extraction"
+		}
+		if hostile == "seed-changes-under-extraction" || rng.Intn(2) == 0 {
+			// after validation, a stretch of several chunks in every seed file is overwritten (not the target, should it
+			// be its own seed: writing into the output from outside proves nothing)
+			var files []string
+			for _, sp := range specs {
+				if !sp.miss && !sp.alias {
+					files = append(files, sp.file)
+				}
+			}
+			at, l := rng.Intn(len(blob)+1), int(sz.Max)*(2+rng.Intn(4))
+			if len(files) > 0 {
+				hostile += "+seed-overwritten"
+				midRun = func() {
+					for _, f := range files {
+						if fh, err := os.OpenFile(f, os.O_WRONLY, 0); err == nil {
+							junk := make([]byte, l)
+							for j := range junk {
+								junk[j] = 0xA5
+							}
+							fh.WriteAt(junk, int64(at))
+							fh.Close()
+						}
+					}
+				}
+			}
+		}
+		ymode = dsu.YieldTraced
+	}
 
 	// success is required when the store is complete and the seeds are consistent, or skip/regenerate was chosen.
 	// Exemptions (success not demanded, only "no wrong success"): a seed that aliases the target (it changes while
 	// being read), and regenerate with a seed whose file does not exist (nothing to regenerate from).
-	mustSucceed := (!anyStale || action != 0) && !anyAlias && !(anyMissing && action == 2)
+	logInfo(hostile)
+	mustSucceed := (!anyStale || action != 0) && !anyAlias && !(anyMissing && action == 2) && hostile == ""
 
 	sigKinds := strings.Join(kindsUsed, ",")
+	sigKindsExtra := ""
 	if useCLI {
 		runCLI(c, dir, target, blob, idx, specs, storeDir, action, n, prior, mustSucceed, class, sz, sigKinds)
 		return
@@ -333,6 +399,19 @@ func run(c *harness.Ctx, i int) {
 	}
 
 	y := dsu.NewYielder(ymode, uint64(rng.Int63()))
+	if midRun != nil {
+		var once sync.Once
+		fireAt := int64(1 + rng.Intn(3))
+		y.OnHit = func(point string, hn int64) {
+			if point == "assemble.worker.job" && hn >= fireAt {
+				once.Do(midRun)
+			}
+		}
+	}
+	if hostile != "" {
+		c.Count("hostile_environment_cases", 1)
+		sigKindsExtra = "|" + hostile
+	}
 	y.Install()
 	stats, err := desync.AssembleFile(context.Background(), target, idx, fs, seeds, desync.AssembleOptions{N: n, InvalidSeedAction: desync.InvalidSeedAction(action)})
 	y.Remove()
@@ -374,7 +453,7 @@ func run(c *harness.Ctx, i int) {
 	c.Count("chunks_in_place", int64(stats.ChunksInPlace))
 	c.Count("bytes_cloned", int64(stats.BytesCloned))
 	if stats.ChunksFromSeeds > 0 || stats.ChunksInPlace > 0 || stats.BytesCopied > 0 || stats.BytesCloned > 0 {
-		c.NonTrivial("lib|%s|%s|%s|%s|%s|n%d|clone%v", class, sz, sigKinds, prior, actionName, n, clone)
+		c.NonTrivial("lib|%s|%s|%s%s|%s|%s|n%d|clone%v", class, sz, sigKinds, sigKindsExtra, prior, actionName, n, clone)
 	}
 	c.Sample(map[string]interface{}{"blob": class, "len": len(blob), "sizes": sz.String(), "seeds": kindsUsed, "prior": prior, "action": actionName, "n": n, "clone": clone, "yield": ymode,
 		"stats": stats})
